@@ -3043,7 +3043,7 @@ def cmp_table_problems(rows, char_letter='H'):
                 out.setdefault('dimension-ignored', 'an array member and a scalar member (type groups %s, same item size) compare EQUAL: `char c[2]` is taken for `char c`; a struct view is accepted as '
                                'another struct dtype without any format check' % pair)
         else:
-            if scalars_equal and v != 'arrays':
+            if scalars_equal and v not in (0, 'arrays'):      # a verdict of 0 is always safe here too (the format check then runs)
                 out.setdefault('extents-skipped', 'for two array members of type groups %s the verdict (%s) is reached without comparing the array extents: `char c[2]` equals `unsigned char c[3]`' % (pair, v))
             if not scalars_equal and v not in (0, 'arrays'):
                 out.setdefault('mismatch-equal:arrays', 'array members of type groups %s with different item descriptors compare EQUAL' % pair)
